@@ -15,4 +15,5 @@ func Init() {
 
 func init() {
 	Engines["C16"] = Engine{Run: pluginw.RunOne, Cells: func(string) int { return pluginw.FloorCells() }}
+	Engines["C17"] = Engine{Run: pluginw.RunOne}
 }
